@@ -23,7 +23,8 @@ RULE = (
     "optionally the child scope is left by a handled cancellation) with up to R "
     "records at positions {outside before, root before children, child body, root after "
     "children, child task after its scope, outside after} x metric type {M1, M2} x merge "
-    "{default replace, concatenate (non-commutative), raising}; every interleaving; "
+    "{default replace, concatenate (non-commutative), raising}; sub-family: one shared immutable metric instance recorded "
+    "repeatedly; every completion callback reads every type three times (plain, with a default, plain); every interleaving; "
     "non-trivial = two records of one type reach the same scope, or a record is made outside / "
     "after completion, or a merge raises"
 )
@@ -81,6 +82,14 @@ OPTIONS = [("M1", "default"), ("M1", "concat"), ("M1", "raising"), ("M2", "defau
 
 
 def programs(tier: str):
+    for p in _base_programs(tier):
+        yield p
+        # the same immutable metric instance recorded again and again (a shared constant)
+        if len(p["children"]) <= 1 and 2 <= len(p["records"]) <= 3 and all(r[1] == "M1" and r[2] in ("default", "concat") for r in p["records"]):
+            yield dict(p, same=True)
+
+
+def _base_programs(tier: str):
     b = BOUNDS[tier]
     places = ("inline", "spawn", "create")
     for nchild in range(0, b["children"] + 1):
@@ -146,8 +155,10 @@ def execute(program, ch: Chooser) -> Result:  # noqa: C901, PLR0915
     viols: list[dict] = []
     events: list = []
     recs = program["records"]
-    letters = "abcdefgh"
+    letters = [("t" if program.get("same") and r[1] == "M1" else "abcdefgh"[i]) for i, r in enumerate(recs)]
+    tick = M1(n=1, trail="t")
     raised_into_user: list = []
+    reread_bad: list = []
     observed_order: list = []  # (record index, target scope or None)
     scopes: dict[str, dict] = {}  # name -> {"created": seq, "cb": {...}, "completed": bool}
     stacks: dict[str, list[str]] = {}  # task name -> scope stack (reference)
@@ -160,7 +171,7 @@ def execute(program, ch: Chooser) -> Result:  # noqa: C901, PLR0915
         _, tname, mname = recs[i]
         # the generic metric type is subscripted afresh at every record (MG[int] each time)
         T = {"M1": M1, "M2": M2}.get(tname) or MG[int]
-        metric = T(n=1, trail=letters[i])
+        metric = tick if (program.get("same") and tname == "M1") else T(n=1, trail=letters[i])
         stack = stacks.get(cur_task_name(), [])
         target = stack[-1] if stack else None
         if target is not None and scopes[target].get("completed"):
@@ -186,6 +197,12 @@ def execute(program, ch: Chooser) -> Result:  # noqa: C901, PLR0915
         def cb(metrics):
             scopes[name]["completed"] = True
             entry = {"M1": metrics.read(M1), "M2": metrics.read(M2), "MG": metrics.read(MG[int])}
+            # reading is an observation: with a default, without one, again - nothing changes
+            sentinel = M1(n=-7, trail="default-of-the-reader")
+            again = {"M1": metrics.read(M1, default=sentinel), "M2": metrics.read(M2), "MG": metrics.read(MG[int])}
+            third = metrics.read(M1)
+            if (again["M1"] is not (entry["M1"] if entry["M1"] is not None else sentinel)) or again["M2"] is not entry["M2"] or again["MG"] is not entry["MG"] or third is not entry["M1"]:
+                reread_bad.append(name)
             if is_root:
                 entry["view_concat"] = metrics.metrics(merge=view_concat)
                 entry["view_first"] = metrics.metrics(merge=view_first)
@@ -353,10 +370,16 @@ def execute(program, ch: Chooser) -> Result:  # noqa: C901, PLR0915
 
             for f_name, key in (("concat", "view_concat"), ("first", "view_first")):
                 got_list = scopes["root"]["cb"][key]
+                foreign = [repr(m)[:40] for m in got_list if not hasattr(m, "trail")]
+                if foreign:
+                    viols.append(viol("merged-view", f"{f_name}/value-never-recorded", "only recorded metrics", foreign[:3]))
+                got_list = [m for m in got_list if hasattr(m, "trail")]
                 got = {("MG" if type(m).__name__.startswith("MG") else type(m).__name__): (m.n, m.trail) for m in got_list}
                 want = fold(f_name)
                 if got != want or len(got_list) != len(got):
                     viols.append(viol("merged-view", f_name, want, got, order=[[recs[i][0], letters[i], t] for i, t in observed_order]))
+        if reread_bad:
+            viols.append(viol("read", "reading-changes-what-is-read", "read(T), read(T, default), read(T) agree", reread_bad))
         nontrivial = collisions > 0 or dropped > 0 or merges_failed > 0
         outcome = f"scopes={len(scopes)}/coll={min(collisions, 2)}/dropped={min(dropped, 2)}/mfail={min(merges_failed, 1)}"
         obs = {"trace": w.trace, "order": [[recs[i][0], recs[i][1], recs[i][2], letters[i], t] for i, t in observed_order]}
